@@ -130,8 +130,10 @@ class Ctx:
         ev = {"property_id": self.prop, "tier": self.tier, "seed": self.seed, "level": "proof",
               "coverage": cov, "assumptions": assumptions or [], "wall_s": round(time.time() - self.t0, 2),
               "violations": len(self.violations)}
-        d = VERIF / "evidence"
-        d.mkdir(exist_ok=True)
+        # (bin/seedtest redirects the evidence of runs against patched trees so that the committed
+        #  evidence always comes from runs against /repo itself)
+        d = Path(os.environ.get("VERIF_EVIDENCE_DIR", str(VERIF / "evidence")))
+        d.mkdir(parents=True, exist_ok=True)
         (d / ("%s.json" % self.prop)).write_text(json.dumps(ev, indent=1, default=str))
 
 
